@@ -59,6 +59,7 @@ def run(ck, fb):
     _run0(ck, fb)
     r11f(ck, fb)
     r11g(ck, fb)
+    r11h(ck, fb)
 
 
 def _run0(ck, fb):
@@ -417,3 +418,25 @@ def r11g(ck, fb, R='R11g'):
                     hit = [s for s in sinks if s.bb in r]
                     ck.require(not hit, R, 'update_instance:no-owner-not-recorded[%s]' % name, hit[0].where() if hit else u.where(),
                                'an instance without an owner (%s) is recorded in the owner index' % name, 'not recorded')
+
+
+def r11h(ck, fb, R='R11h'):
+    ck.rule(R, 'health flips are counted where they happen: every method of Service that stores an instance (instances.insert) after assigning its '
+               '`healthy` field (a flip made on a clone of the stored instance) also writes healthy_instance_size in the same method. A flip made '
+               'directly on the stored copy - on a take-over, a sync, a probe result - otherwise leaves the reported healthy count behind the '
+               'instances that are returned, for good')
+    n = 0
+    for b in fb.bodies.values():
+        if not b.name.startswith(SV) or b.parent or '::tests::' in b.name:
+            continue
+        hw = [(bb, st) for (o, f, bb, st) in b.field_writes() if f == 'healthy' and o.endswith('naming::model::Instance')]
+        ins = util.mut_calls_on_field(b, 'instances', r'HashMap::<K, V, S, A>::insert$')
+        if not hw or not ins:
+            continue
+        n += 1
+        ck.analysed(b)
+        cw = [(bb, st) for (o, f, bb, st) in b.field_writes() if f == 'healthy_instance_size']
+        ck.require(bool(cw), R, '%s:flip-is-counted' % b.name.split('::')[-1], b.where(hw[0][0]),
+                   '%s sets the healthy flag of an instance it stores and never touches healthy_instance_size: the healthy count reported for the '
+                   'service differs from the number of healthy instances returned from then on' % b.name, 'counter written')
+    ck.floor(R, 'Service methods that flip and store', n, 2)
